@@ -10,6 +10,8 @@ import (
 	"runtime"
 	"strconv"
 	"sync"
+	"sync/atomic"
+	"time"
 
 	jerr "github.com/jsightapi/jsight-schema-go-library/errors"
 )
@@ -206,3 +208,46 @@ func intsToBytes(a []int) []byte {
 	}
 	return r
 }
+
+// hangWatch reports a piece of work on the code under test that has not come back after `limit` (an endless loop looks like a slow
+// run otherwise): the input is printed as  @@HANG "<input>"  on stderr and the process ends with exit code 4.
+type hangWatch struct {
+	m      sync.Map
+	id     int64
+	limit  time.Duration
+	onHang func(input []byte)
+}
+
+type hangEntry struct {
+	t time.Time
+	b []byte
+}
+
+func newHangWatch(limit time.Duration, onHang func(input []byte)) *hangWatch {
+	h := &hangWatch{limit: limit, onHang: onHang}
+	go func() {
+		for {
+			time.Sleep(2 * time.Second)
+			h.m.Range(func(k, v interface{}) bool {
+				e := v.(hangEntry)
+				if time.Since(e.t) > h.limit {
+					if h.onHang != nil {
+						h.onHang(e.b)
+					}
+					fmt.Fprintf(os.Stderr, "@@HANG %q\n", string(e.b))
+					os.Exit(4)
+				}
+				return true
+			})
+		}
+	}()
+	return h
+}
+
+func (h *hangWatch) begin(b []byte) int64 {
+	id := atomic.AddInt64(&h.id, 1)
+	h.m.Store(id, hangEntry{time.Now(), b})
+	return id
+}
+
+func (h *hangWatch) end(id int64) { h.m.Delete(id) }
